@@ -21,7 +21,7 @@ func newWriter(mode string, out io.Writer, fixed []Bytes) ion.Writer {
 		return ion.NewTextWriter(out)
 	case "pretty":
 		return ion.NewTextWriterOpts(out, ion.TextWriterPretty)
-	case "binary":
+	case "binary", "binsid", "bintwice":
 		return ion.NewBinaryWriter(out)
 	case "binlst":
 		syms := make([]string, len(fixed))
@@ -163,9 +163,12 @@ func cmdRoundtrip(in *bufio.Scanner, out *bufio.Writer) error {
 			return err
 		}
 		idx++
-		for _, mode := range []string{"text", "pretty", "binary"} {
+		for _, mode := range []string{"text", "pretty", "binary", "binsid", "bintwice"} {
 			o := rtObs{Idx: idx, Mode: mode, Out: Bytes{}, Back: []Val{}}
 			var buf bytes.Buffer
+			if mode == "binsid" {
+				foreignSID = 11 // every token with text also carries an ID from "elsewhere"; the text must win
+			}
 			err, pan, site := safely(func() error {
 				w := newWriter(mode, &buf, nil)
 				for _, v := range c.Forest {
@@ -173,8 +176,20 @@ func cmdRoundtrip(in *bufio.Scanner, out *bufio.Writer) error {
 						return err
 					}
 				}
+				if mode == "bintwice" {
+					// the same values again as a second datagram of the same writer (no new symbols in it)
+					if err := w.Finish(); err != nil {
+						return err
+					}
+					for _, v := range c.Forest {
+						if err := writeValue(w, v); err != nil {
+							return err
+						}
+					}
+				}
 				return w.Finish()
 			})
+			foreignSID = 0
 			if pan {
 				o.WPan = site
 			}
